@@ -161,7 +161,8 @@ PROPS = {
     'C19': dict(
         rules=[purity.pur_rules, purity.rng_src, purity.rng_fwd, purity.sch_rules, dtype.dtype_inherit,
                forms.form_agree,
-               forms.form_agree_tables, forms.util_prod, layout.est_rules, sensor.sm_accum],
+               forms.form_agree_tables, forms.util_prod, layout.est_rules, sensor.sm_accum,
+               diff.wrap_rules],
         decided=['no public callable writes into an argument, a constructor-argument field or a '
                  'shared constant (may-alias effect analysis with interprocedural summaries; '
                  'pandas-3 copy-on-write model)',
